@@ -18,7 +18,7 @@ import (
 
 func refPlan(p *Plan) *Plan {
 	q := *p
-	q.Codec, q.Header, q.ByName, q.Plain, q.Mixed = "json", "", false, false, false
+	q.Codec, q.Header, q.ByName, q.Plain, q.Mixed, q.TLS = "json", "", false, false, false, false
 	q.Net = NetConfig{}
 	q.Servers = make([]ServerCfg, len(p.Servers))
 	q.Conns = make([]ConnCfg, len(p.Conns))
@@ -51,6 +51,9 @@ func genC12(r *simrt.Rand, tier string, idx uint64) *Plan {
 	}
 	// (unary handlers here look at their arguments only while they run, which NoCopy allows
 	// for every codec)
+	// Options may carry a TLS configuration: it has to reach the socket constructor on both ends
+	// whether the socket is given by name or by constructor
+	p.TLS = !p.Plain && r.Chance(1, 3)
 	big := bigBudget(p)
 	nclients := 1 + r.Intn(4)
 	for c := 0; c < nclients; c++ {
@@ -205,6 +208,13 @@ func checkC12(w *World, run *simrt.Run) {
 			w.Violate("C12.transcript", "stream-outcome-differs:"+cfgClass(w.P), fmt.Sprintf("stream %d: reference: %s; under %s: %s", k, desc(rr), cfgDesc(w.P), desc(sr)))
 		}
 		w.Probe("stream-pair-compared")
+	}
+	if w.P.TLS {
+		if w.Net.TLSMissing > 0 || w.Net.TLSCalls == 0 {
+			w.Violate("C12.tls", "tls-configuration-not-passed-to-socket:"+map[bool]string{true: "by-name", false: "by-constructor"}[w.P.ByName], fmt.Sprintf("Options.TLSConfig was set on both ends; of %d socket constructor calls %d received no or another configuration (%s)", w.Net.TLSCalls, w.Net.TLSMissing, cfgDesc(w.P)))
+		} else {
+			w.Probe("tls-configuration-reached-socket")
+		}
 	}
 	w.Probe("configuration-pair-compared")
 	w.Probe("cfg:" + w.P.Codec + "/" + w.P.Header)
